@@ -21,6 +21,13 @@ TFs == { [code |-> 2, hi |-> s * 32768 + E * 128 + f \div 65536, lo |-> f % 6553
           d |-> DecFsingl(s * 32768 + E * 128 + f \div 65536, f % 65536)] : s \in {0, 1}, E \in {0, 1, 2, 126, 127, 128, 149, 150, 253, 254, 255}, f \in Fr23 }
 TIs == { [code |-> 5, hi |-> s * 32768 + E * 256 + f \div 65536, lo |-> f % 65536,
           d |-> DecIsingl(s * 32768 + E * 256 + f \div 65536, f % 65536)] : s \in {0, 1}, E \in {0, 1, 63, 64, 65, 66, 127}, f \in {0, 1, 255, 1048576, 7774208, 16777215} }
+(* VSINGL: every exponent, both signs, fraction fields with bits at both ends and in every byte; both readings *)
+VsFr == {0, 1, 255, 256, 65535, 65536, 819200, 1638400, 4194304, 8388607}
+TVs == { [code |-> 6, b |-> <<(E % 2) * 128 + f \div 65536, sg * 128 + E \div 2, f % 256, (f \div 256) % 256>>,
+          d24 |-> DecVsingl((E % 2) * 128 + f \div 65536, sg * 128 + E \div 2, f % 256, (f \div 256) % 256, 24),
+          d23 |-> DecVsingl((E % 2) * 128 + f \div 65536, sg * 128 + E \div 2, f % 256, (f \div 256) % 256, 23)] :
+            sg \in {0, 1}, E \in 1..255, f \in VsFr }
+       \cup { [code |-> 6, b |-> <<f \div 65536, 0, f % 256, (f \div 256) % 256>>, d24 |-> D(0, 0), d23 |-> D(0, 0)] : f \in VsFr }
 TSl == { [code |-> 14, hi |-> h, lo |-> l, d |-> DecSlong(h, l)] : h \in Halves, l \in Halves }
 (* every 16-bit and 8-bit word of the short codes *)
 T16 == { [code |-> c, w |-> w, d |-> (CASE c = 49 -> Dec49(w) [] c = 79 -> Dec79(w) [] c = 13 -> DecSnorm(w) [] OTHER -> DecUnorm(w))] :
@@ -32,6 +39,7 @@ TUv == { [code |-> 18, bytes |-> bs, v |-> Uvari(bs).v, n |-> Uvari(bs).n] :
            bs \in { <<b1, b2, b3, b4>> : b1 \in {0, 1, 127, 128, 129, 191, 192, 193, 255}, b2 \in {0, 255}, b3 \in {0, 1}, b4 \in {0, 254} } }
 
 ASSUME JsonSerialize(IOEnv.OUT_32, SetToSeq(T68 \cup T70 \cup T73 \cup T50 \cup TFs \cup TIs \cup TSl))
+ASSUME JsonSerialize(IOEnv.OUT_VS, SetToSeq(TVs))
 ASSUME JsonSerialize(IOEnv.OUT_16, SetToSeq(T16))
 ASSUME JsonSerialize(IOEnv.OUT_8, SetToSeq(T8))
 TVar == { [bytes |-> bs, ident |-> IdentLen(bs), ascii |-> AsciiLen(bs), obname |-> ObnameLen(bs), objref |-> ObjrefLen(bs)] : bs \in VarSeqs }
